@@ -27,18 +27,6 @@ Theorem b23_inverse_at_590 : inverse_within b23p_F b23t_F t_590 tol_1e8 false = 
 Proof. exact b23_endpoint_590. Qed.
 Print Assumptions b23_inverse_at_590.
 
-(** REFUTED on the faithful model (finding tsat:upper-endpoint): tsat(sat(t)) is not defined on
-    the whole closed interval [0.01, tcritical] of doubles *)
-Theorem tsat_upper_endpoint_refuted :
-  exists t, PrimFloat.leb t_triple t = true /\ PrimFloat.leb t tcritical_F = true /\ ~ sat_tsat_defined_at t.
-Proof. exact tsat_upper_endpoint_refuted_proof. Qed.
-Print Assumptions tsat_upper_endpoint_refuted.
-
-Theorem sat_of_tcritical_exceeds_pcritical :
-  exists p, sat_F tcritical_F = FRet [p] /\ PrimFloat.ltb pcritical_F p = true /\ tsat_F p = FNone.
-Proof. exact sat_tcritical_above_pcritical. Qed.
-Print Assumptions sat_of_tcritical_exceeds_pcritical.
-
 (** every literal of every traced DAG carries one number (its exact rational = its double) *)
 Theorem literals_consistent :
   forallb consts_consistent [cowat_nodes; supst_nodes; super_nodes; sat_nodes; tsat_nodes; b23p_nodes; b23t_nodes; region_nodes; visc_nodes] = true.
